@@ -1154,6 +1154,42 @@ def edge_statements():
   return res
 
 
+def union_shape_programs():
+  """Variables bound to displays of DIFFERENT lengths on different paths (conditional expression, if/else,
+  try/except, loop), in both length orders, then consumed by star displays, star calls, unpacking targets and
+  sequence patterns, with more code after the consumer -> [(label, source)].  Always run (quick and thorough)."""
+  seqs = [("(1, 2, 3)", "(4, 5)"), ("(1,)", "(1, 'a', 3.0)"), ("()", "(1, 2)"), ("[1, 2, 3]", "[4]"),
+          ("(1, 2, 3)", "[4, 5]"), ("'abc'", "'a'")]
+  binders = [
+      ("ifexp", lambda a, b: ["  t = %s if c else %s" % (a, b)]),
+      ("ifelse", lambda a, b: ["  if c:", "    t = %s" % a, "  else:", "    t = %s" % b]),
+      ("try", lambda a, b: ["  try:", "    t = %s" % a, "  except ValueError:", "    t = %s" % b]),
+      ("loop", lambda a, b: ["  t = %s" % a, "  for _ in range(c):", "    t = %s" % b]),
+  ]
+  users = [
+      ("list-star", ["  out = [*t]", "  out.append(1)"]),
+      ("tuple-star", ["  out = (0, *t, 1)", "  print(out)"]),
+      ("set-star", ["  out = {*t}", "  print(out)"]),
+      ("call-star", ["  out = g(0, *t)", "  print(out)"]),
+      ("unpack-star", ["  x, *y = t", "  out = (x, y)", "  print(out)"]),
+      ("unpack-exact", ["  x, y = t", "  out = (x, y)", "  print(out)"]),
+      ("match-seq", ["  match t:", "    case (x, y):", "      out = x", "    case (x, y, z):", "      out = z",
+                     "    case _:", "      out = None", "  print(out)"]),
+      ("for-zip", ["  out = [q for q in t]", "  out2 = list(zip(t, t))", "  print(out, out2)"]),
+  ]
+  progs = []
+  for si, (a0, b0) in enumerate(seqs):
+    for a, b, od in ((a0, b0, "ab"), (b0, a0, "ba")):
+      body = ["def g(*a):", "  return a"]
+      n = 0
+      for bn, bind in binders:
+        for un, use in users:
+          body += ["def f%d(c):" % n] + bind(a, b) + use + ["  return out", "f%d(1)" % n]
+          n += 1
+      progs.append(("union-shapes:%d%s" % (si, od), "\n".join(body) + "\n"))
+  return progs
+
+
 def edge_programs(per_program=20):
   """Bundles the edge statements (each on its own line; a module and a function-body variant) -> [(label, source)]."""
   st = edge_statements()
